@@ -73,8 +73,9 @@ def suffixTy (name : Str) : Option VarTy :=
 def letterIndex (c : Char) : Nat :=
   if 65 ≤ c.toNat then c.toNat - 65 else 18446744073709551616 - (65 - c.toNat)
 
-/-- type of a name: by suffix, else by the DEFtype of its first letter.  `none`: the empty name.
-    A first character outside `A..Z` makes `self.types[idx]` index out of bounds (panic). -/
+/-- type of a name: by suffix, else by the DEFtype of its first letter (`letter_type`).  `none`: the
+    empty name, or a first character outside `A..Z` (fix D21: the table is looked up with a checked
+    index; this used to be a panic). -/
 def tyOf (v : Var) (name : Str) : Res (Option VarTy) :=
   match suffixTy name with
   | some t => .ok (some t)
@@ -83,7 +84,7 @@ def tyOf (v : Var) (name : Str) : Res (Option VarTy) :=
     | [] => .ok none
     | c :: _ =>
       if letterIndex c < 26 then .ok (some (v.types (letterIndex c)))
-      else fault "var.rs types[idx]: index out of bounds"
+      else .ok none
 
 /-- `fetch` -/
 def fetch (v : Var) (name : Str) : Res Val :=
@@ -233,7 +234,8 @@ def defKeeps (t : VarTy) (p : Str × Val) : Bool :=
     | .ret _ | .nxt _ => true
 
 /-- `def`: `for idx in (from - 'A')..=(to - 'A') { types[idx] = t }` then the `retain`.
-    The subtractions wrap; an empty range does nothing; a range reaching index 26 panics. -/
+    An empty range does nothing.  Operands that are not letters `A..Z` are ILLEGAL FUNCTION CALL
+    (fix D22: the loop used to index the table out of bounds, a panic). -/
 def defTy (v : Var) (t : VarTy) (frm to : Val) : Res Var := do
   let f ← frm.toStr
   let u ← to.toStr
@@ -241,7 +243,7 @@ def defTy (v : Var) (t : VarTy) (frm to : Val) : Res Var := do
   | fc :: _, tc :: _ =>
     let lo := letterIndex fc
     let hi := letterIndex tc
-    if lo ≤ hi ∧ 26 ≤ hi then fault "var.rs types[idx] = t: index out of bounds"
+    if ¬ (lo < 26 ∧ hi < 26) then err Code.illegalFunctionCall
     else
       .ok { v with types := fun i => if lo ≤ i ∧ i ≤ hi then t else v.types i,
                    vars := v.vars.filter (defKeeps t) }
